@@ -162,6 +162,9 @@ func (d *digest) UnmarshalBinary(b []byte) error {
 	if len(b) != marshaledSize {
 		return errors.New("crypto/blake2s: invalid hash state size")
 	}
+	if size, offset := int(b[len(magic)+8*4+2*4]), int(b[marshaledSize-1]); size < 1 || size > Size || offset > BlockSize {
+		return errors.New("crypto/blake2s: invalid hash state")
+	}
 	b = b[len(magic):]
 	for i := 0; i < 8; i++ {
 		b, d.h[i] = consumeUint32(b)
